@@ -38,6 +38,7 @@ ASSUMPTIONS = ['expressions in tracepoints are side-effect free (the property qu
                'non-interference of the agent\'s reads with host state is exercised by the differential oracle, not proved']
 
 _G = {}
+ADDR = __import__('re').compile(r'0x[0-9a-fA-F]+')      # object addresses in reprs differ between runs
 
 
 def G():
@@ -82,7 +83,8 @@ KINDS = ['snapshot', 'snapshot', 'log', 'metric', 'span_line', 'span_method', 'm
 FUNCS = {'calls': ['leaf', 'mid'], 'recursion': ['fact', 'fib'], 'exceptions': ['risky', 'guarded'],
          'generators': ['squares', '__next__'], 'threads': ['work'], 'dunders': ['touch'], 'seeded_random': ['draw'],
          'finalizers': ['use'], 'finalizers_nogc': ['use'], 'classes': ['deposit', 'fee', 'inc'], 'data': ['build', 'mutate'], 'loops': ['scan'],
-         'ghost': ['handle', 'helper'], 'tracking_dicts': ['configure'], 'owned_exception': ['parse']}
+         'ghost': ['handle', 'helper'], 'tracking_dicts': ['configure'], 'owned_exception': ['parse'],
+         'one_shot': ['prepare', 'gen'], 'del_order': ['main'], 'closure_threads': ['audit', 'deposit']}
 
 
 def random_tp(rng, prog, idx):
@@ -158,6 +160,18 @@ def corpus():
         {'kind': 'scenario', 'prog': 'calls', 'inp': 2, 'plugin_faults': {'log': 'exc'},
          'tps': [{'id': 'tp0', 'kind': 'snapshot_log', 'mark': 'A', 'fire_count': '-1', 'log_msg': 'n={n}', 'watches': ['n']},
                  {'id': 'tp1', 'kind': 'snapshot', 'mark': 'A', 'fire_count': '-1', 'watches': []}]},
+        # one-shot iterators / views / a deque in the locals of a snapshot: the host consumes them afterwards
+        {'kind': 'scenario', 'prog': 'one_shot', 'inp': 2,
+         'tps': [{'id': 'tp0', 'kind': 'snapshot', 'mark': 'A', 'fire_count': '-1', 'frame_type': 'all_frame',
+                  'watches': ['r_tuple', 'g', 'keys', 'dq', 'z']},
+                 {'id': 'tp1', 'kind': 'snapshot_log', 'mark': 'B', 'fire_count': '-1', 'log_msg': '{r_str} {r_seq} {m} {e}'}]},
+        # `del x; stmt` on one line of a function WITHOUT tracepoints: finalisation order must not change
+        {'kind': 'scenario', 'prog': 'del_order', 'inp': 0,
+         'tps': [{'id': 'tp0', 'kind': 'log', 'mark': 'C', 'fire_count': '-1', 'log_msg': 'done'}]},
+        # another host thread rebinds a closure variable while this thread is inside the handler (metric processor = gate)
+        {'kind': 'scenario', 'prog': 'closure_threads', 'inp': 1,
+         'tps': [{'id': 'tp0', 'kind': 'metric', 'mark': 'A', 'fire_count': '-1',
+                  'metrics': [{'type': 'COUNTER', 'expr': None, 'labels': []}]}]},
         # all four action kinds on one line of a threaded host
         {'kind': 'scenario', 'prog': 'threads', 'inp': 1,
          'tps': [{'id': 'tp0', 'kind': 'snapshot_log', 'mark': 'A', 'fire_count': '-1', 'log_msg': 'k={k}', 'watches': ['box']},
@@ -366,6 +380,15 @@ def agent_run(case, fault):
         {'kind': 'metric', 'name': 'm2'},
         {'kind': 'span', 'name': 's1', 'fail': fail('create_span', 'close')},
         {'kind': 'span', 'name': 's2'}])
+    if case['prog'] == 'closure_threads':
+        # the second metric processor is a gate: while the traced thread is inside the handler the other host thread
+        # is let go and waited for
+        def gate():
+            gates = h.modules['closure_threads'].GATES
+            if gates.get('go') is not None and not gates['done'].is_set():
+                gates['go'].set()
+                gates['done'].wait(10)
+        rec.hooks[('m2', 'metric')] = gate
     cfg = ConfigService({'APP_ROOT': h.dir}, tracepoints=TracepointConfigService())
     cfg.resource = Resource.get_empty()
     cfg.plugins = plugins
@@ -439,7 +462,7 @@ def agent_run(case, fault):
         pass
     for name, cb, detail in rec.events:
         if cb == 'log':
-            eff(detail[0])['logs'].append([name, detail[1]])
+            eff(detail[0])['logs'].append([name, ADDR.sub('0x?', str(detail[1]))])
         elif cb == 'metric':
             tp = detail[1].split('_')[1] if detail[1].startswith('m_') else '?'
             eff(tp)['metrics'].append([name, detail[0], detail[1], repr(detail[2])])
